@@ -197,6 +197,8 @@ class _ToTupleStandardValidator(_ToTupleValidator[SuccessT]):
             and self.predicates == other.predicates
             and self.predicates_async == other.predicates_async
             and self.preprocessors == other.preprocessors
+            and self.coerce == other.coerce
+            and self._TYPE is other._TYPE
         )
 
     def __repr__(self) -> str:
